@@ -30,11 +30,13 @@ struct Settings {
     proxy: bool,
     charset: u8,
     compression: bool,
+    /// the request is a HEAD (every rule is the same, the final body is empty)
+    head: bool,
 }
 
 impl Default for Settings {
     fn default() -> Self {
-        Settings { headers: vec![], max_headers: 100, max_redir: 5, follow: true, ct_ms: 30_000, rt_ms: 30_000, t_ms: None, proxy: false, charset: 0, compression: true }
+        Settings { headers: vec![], max_headers: 100, max_redir: 5, follow: true, ct_ms: 30_000, rt_ms: 30_000, t_ms: None, proxy: false, charset: 0, compression: true, head: false }
     }
 }
 
@@ -94,7 +96,7 @@ fn gen_set(g: &mut G) -> Set {
         6 => Set::Proxy(g.chance(1, 2)),
         7 => Set::Charset(g.below(3) as u8),
         8 => Set::Compression(g.chance(1, 2)),
-        _ => Set::Header((*g.pick(&["Accept", "accept", "User-Agent", "X-A", "x-a", "X-B", "Accept-Encoding"])).to_string(), (*g.pick(&["v1", "v2", "text/html", "agent/9", "br"])).to_string(), g.chance(1, 3)),
+        _ => Set::Header((*g.pick(&["Accept", "accept", "User-Agent", "X-A", "x-a", "X-B", "Accept-Encoding"])).to_string(), (*g.pick(&["v1", "v2", "text/html", "agent/9", "br", ""])).to_string(), g.chance(1, 3)),
     }
 }
 
@@ -278,7 +280,8 @@ fn run_thread(sh: &Arc<Mutex<Shared>>, ops: &[(usize, Op)], me: usize) {
                 }
                 Op::NewBuilder(k, probe) => {
                     if let (Obj::Session(s), Some(mut m)) = (&g.objs[*k], g.model[*k].clone()) {
-                        let b = s.get(url_of(*probe)).header("X-Req-Id", i.to_string());
+                        m.head = i % 4 == 3;
+                        let b = if m.head { s.head(url_of(*probe)) } else { s.get(url_of(*probe)) }.header("X-Req-Id", i.to_string());
                         m.header("x-req-id", &i.to_string(), false);
                         g.objs[i] = Obj::Builder(b, *probe);
                         g.model[i] = Some(m);
@@ -286,8 +289,9 @@ fn run_thread(sh: &Arc<Mutex<Shared>>, ops: &[(usize, Op)], me: usize) {
                     }
                 }
                 Op::Standalone(probe) => {
-                    let b = attohttpc::get(url_of(*probe)).header("X-Req-Id", i.to_string());
                     let mut m = Settings::default();
+                    m.head = i % 4 == 3;
+                    let b = if m.head { attohttpc::head(url_of(*probe)) } else { attohttpc::get(url_of(*probe)) }.header("X-Req-Id", i.to_string());
                     m.header("x-req-id", &i.to_string(), false);
                     g.objs[i] = Obj::Builder(b, *probe);
                     g.model[i] = Some(m);
@@ -534,6 +538,7 @@ pub fn scenario(g: &mut G, ctx: &RunCtx) -> RunReport {
                         Ok((
                             200,
                             match m.charset {
+                                _ if m.head => String::new(),
                                 1 => "\u{fffd}".to_string(),
                                 2 => "\u{449}".to_string(),
                                 _ => "\u{e9}".to_string(),
